@@ -301,11 +301,27 @@ func runC14Ctx(e *Env) {
 		return
 	}
 	cancelStep := 0
-	e.Go("canceller", func() { cancel(); cancelStep = e.Step() })
+	liveAtCancel := -1
+	e.Go("canceller", func() {
+		if src != nil {
+			liveAtCancel = src.Live
+		}
+		cancel()
+		cancelStep = e.Step()
+	})
 	e.Settle()
 	if e.K.Capped() {
 		e.Violate("C14", "busy-loop-after-termination", "busy loop after context cancellation")
 		return
+	}
+	if sc.Sub == "Retry" && liveAtCancel == 0 && src.Subs > 0 {
+		// cancelled between two attempts (during the back-off delay): nothing is in progress that could
+		// justify waiting; the loop ends at once, without the clock having to reach the end of the delay
+		if !h.Ret() {
+			e.Violate("C14", "subscribe-blocked", "Retry: the context was cancelled during the back-off between two attempts, but Subscribe has not returned at quiescence (before the clock moved)")
+		} else if rec.Terminal() == 0 {
+			e.Violate("C14", "not-closed-after-cancel", "Retry: cancelled during the back-off but no terminal notification at quiescence: "+rec.Trace())
+		}
 	}
 	if sc.Sub == "Retry" {
 		// Retry is promised to stop retrying: the attempt in progress may run to its end (the scripted
